@@ -80,7 +80,7 @@ def main():
     # seeded table
     tab = seeded_table()
     s = re.sub(r'<!-- SEEDED-TABLE-BEGIN -->.*?<!-- SEEDED-TABLE-END -->',
-               '<!-- SEEDED-TABLE-BEGIN -->\n' + tab + '<!-- SEEDED-TABLE-END -->', s, flags=re.S)
+               lambda m: '<!-- SEEDED-TABLE-BEGIN -->\n' + tab + '<!-- SEEDED-TABLE-END -->', s, flags=re.S)
     s = status_figures(s)
     open(p, 'w').write(s)
 
